@@ -6,4 +6,10 @@
 static int avm_native_assert_failures = 0;
 #define __CPROVER_assert(c, msg) do { if (!(c)) { printf("ASSERT FAILED: %s\n", msg); avm_native_assert_failures++; } } while (0)
 #include "avm_base.h"
+
+/* conversion helper that contracts name (the model header defines the same function for CBMC) */
+static inline uint32_t avm_cvtt_f64_u32(double f) {
+  if (!(f > -1.0 && f < 4294967296.0)) return 0xffffffffu;
+  return (uint32_t)f;
+}
 #endif
